@@ -4,6 +4,8 @@ import (
 	"bytes"
 	"fmt"
 	"io"
+	"os"
+	"path/filepath"
 	"time"
 
 	carv2 "github.com/ipld/go-car/v2"
@@ -39,14 +41,43 @@ func (o ReadOpts) Options() []carv2.Option {
 
 func srcBudget(n int) int { return 64*n + 4096 }
 
+// Real-world source kinds next to the simulated capability profiles.
+const (
+	ProfBytes  = "bytes.Reader"
+	ProfOSFile = "os.File"
+)
+
+// openSource returns the reader for a profile, the simulated core (nil for the
+// two real kinds), a function giving the highest offset consumed, and a cleanup.
+func openSource(data []byte, profile string, del sim.Delivery) (io.Reader, *sim.SrcCore, func() int64, func()) {
+	switch profile {
+	case ProfBytes:
+		r := bytes.NewReader(data)
+		return r, nil, func() int64 { return int64(len(data) - r.Len()) }, func() {}
+	case ProfOSFile:
+		p := filepath.Join(scratchDir(), "tmp", fmt.Sprintf("src-%d.car", os.Getpid()))
+		os.MkdirAll(filepath.Dir(p), 0o755)
+		if err := os.WriteFile(p, data, 0o644); err != nil {
+			panic(&InfraError{"temp file: " + err.Error()})
+		}
+		f, err := os.Open(p)
+		if err != nil {
+			panic(&InfraError{"temp file: " + err.Error()})
+		}
+		return f, nil, func() int64 { o, _ := f.Seek(0, io.SeekCurrent); return o }, func() { f.Close(); os.Remove(p) }
+	}
+	src, core := sim.NewSource(data, profile, del)
+	core.Budget = srcBudget(len(data)) * 4
+	return src.(io.Reader), core, func() int64 { return core.HighWater }, func() {}
+}
+
 // runC14One checks one (image, choice string, profile, delivery).
 func runC14One(l *Layout, choices string, profile string, del sim.Delivery, opts ReadOpts, st *Stats) *Violation {
-	src, core := sim.NewSource(l.Image, profile, del)
-	core.Budget = srcBudget(len(l.Image)) * 4
-	rd := src.(io.Reader)
+	rd, _, hw, done := openSource(l.Image, profile, del)
+	defer done()
 	var br *carv2.BlockReader
 	var err error
-	loc := fmt.Sprintf("v%d/%s", map[bool]int{false: 1, true: 2}[l.Spec.V2], map[bool]string{false: "stream", true: "seekable"}[sim.IsSeekable(profile)])
+	loc := fmt.Sprintf("v%d/%s", map[bool]int{false: 1, true: 2}[l.Spec.V2], map[bool]string{false: "stream", true: "seekable"}[sim.IsSeekable(profile) || profile == ProfBytes || profile == ProfOSFile])
 	if pv := safeCall(func() { br, err = carv2.NewBlockReader(rd, opts.Options()...) }); pv != nil {
 		return viol("medium/panic/blockreader-new", "NewBlockReader panicked on a valid archive: %v", pv)
 	}
@@ -123,8 +154,8 @@ func runC14One(l *Layout, choices string, profile string, del sim.Delivery, opts
 	}
 	if l.Spec.V2 {
 		end := l.DataOffset + l.DataSize
-		if core.HighWater > end {
-			return viol("medium/over-consumption/v2-payload@"+loc, "the source was consumed up to offset %d, past the end of the payload at %d (choices %q)", core.HighWater, end, choices)
+		if w := hw(); w > end {
+			return viol("medium/over-consumption/v2-payload@"+loc, "the source was consumed up to offset %d, past the end of the payload at %d (choices %q)", w, end, choices)
 		}
 	}
 	return nil
@@ -165,8 +196,11 @@ func RunC14(t *Trace, st *Stats) *Violation {
 	}
 	var first *Violation
 	seen := map[string]bool{}
-	for _, prof := range readerProfiles {
+	for _, prof := range append(append([]string{}, readerProfiles...), ProfBytes, ProfOSFile) {
 		dels := []sim.Delivery{{ErrAt: -1}, GenDelivery(r), {Chunks: []int{1}, ErrAt: -1, EOFWithData: true}}
+		if prof == ProfBytes || prof == ProfOSFile {
+			dels = dels[:1] // real readers deliver as they please
+		}
 		for di, del := range dels {
 			for _, cs := range strs {
 				st.Evals++
@@ -281,7 +315,7 @@ func init() {
 			Prop: "C14", Level: "exploration", Engine: "medium",
 			Runs:   tierPick(tier, 1600, 300000),
 			Budget: tierPick(tier, 50*time.Second, 12*time.Minute),
-			Rule: "valid CARv1/CARv2 images (padded, with/without index, null padding, up to 8 blocks incl. 3-byte length varints) built by the reference codec; for each image ALL Next/SkipNext choice strings (<=6 blocks; 42 sampled beyond) x 6 capability profiles of the source (Reader, +ByteReader, ReadSeeker, +ByteReader, +ReaderAt, +both) x 3 delivery plans (full reads, seeded chunking, 1-byte dribble with EOF-with-data). Oracle: reference section table (CID, bytes, Offset, SourceOffset, Size, length prefix at SourceOffset), io.EOF after the last block, and for CARv2 the source's high-water mark never exceeds DataOffset+DataSize. " +
+			Rule: "valid CARv1/CARv2 images (padded, with/without index, null padding, up to 8 blocks incl. 3-byte length varints) built by the reference codec; for each image ALL Next/SkipNext choice strings (<=6 blocks; 42 sampled beyond) x 6 simulated capability profiles of the source (Reader, +ByteReader, ReadSeeker, +ByteReader, +ReaderAt, +both) x 3 delivery plans, plus a real bytes.Reader and a real *os.File (full reads, seeded chunking, 1-byte dribble with EOF-with-data). Oracle: reference section table (CID, bytes, Offset, SourceOffset, Size, length prefix at SourceOffset), io.EOF after the last block, and for CARv2 the source's high-water mark never exceeds DataOffset+DataSize. " +
 				"An evaluation is one (image, choice string, profile, delivery); distinct non-trivial = distinct (image shape, choice string, profile, delivery class)",
 			Gen: GenC14, Exec: RunC14, Minimise: true, ExtraShrink: shrinkMedium,
 			Assume: []string{"reference codec locates sections correctly in images it built itself"},
